@@ -406,3 +406,35 @@ async fn add_response_to_resources(
         }
     }
 }
+
+#[cfg(simple_dns_verif)]
+/// verification hook: run the async add_response_to_resources, returning what was sent to the discovery channel
+pub(crate) async fn verif_add_response(
+    packet: Packet<'_>,
+    service_name: &Name<'_>,
+    full_name: &Name<'_>,
+    owned_resources: &mut ResourceRecordManager<'static>,
+    with_channel: bool,
+) -> Vec<InstanceInformation> {
+    if with_channel {
+        let (sender, mut receiver) = tokio::sync::mpsc::channel(16);
+        let mut on_discovery = Some(sender);
+        add_response_to_resources(
+            packet,
+            service_name,
+            full_name,
+            owned_resources,
+            &mut on_discovery,
+        )
+        .await;
+        drop(on_discovery);
+        let mut sent = Vec::new();
+        while let Ok(instance) = receiver.try_recv() {
+            sent.push(instance);
+        }
+        sent
+    } else {
+        add_response_to_resources(packet, service_name, full_name, owned_resources, &mut None).await;
+        Vec::new()
+    }
+}
